@@ -21,6 +21,11 @@ CLAIMED = {
         text='Exploration with exhaustive sub-spaces: every scheduler step of 4 (thorough 5) deterministic baseline scenarios x requester {A, B, both} x action {terminate, close, peer process death}, then seeded random scenarios and cut-points; obligations (a)-(e) of the statement are decided at world quiescence only (half-open = quiescent and still open).',
         note=_NOTE + ' A refused terminate() imposes only "session unharmed". Agent.shutdown() over several contacts is exercised in the C18 agent scenarios.',
     ),
+    'C14': dict(
+        technique='runtime monitor in virtual time: send_message/recv_raw recorder on both real endpoints judged by a keepalive/idle timer model; get_session_parameters() vs announced values; icontract postcondition on the segment-size controller plus wire bound',
+        text='Exploration over the 6x6 keepalive grid x idle times with traffic placed 1 ms before, at and 1 ms after each deadline (virtual clock), a mute-peer family for the terminating-endpoint clause (idle times x keepalives x request offsets x in-flight bundle) and seeded adaptive-segment-size runs with 1 ms network latency; every KEEPALIVE must follow exactly K of own silence, no silence longer than K, SESS_TERM(idle-timeout) exactly at I without traffic, closure by request + I.',
+        note=_NOTE + ' Timer verdicts use the virtual clock only.',
+    ),
     'C17': dict(
         technique='runtime monitor of loop exception records, decoded wire output, receive queue and own-transfer progress of a real endpoint driven by a scripted adversarial peer, judged by a peer-model automaton',
         text='Exploration with exhaustive sub-spaces: in each of six endpoint states and both roles, all sequences of length <= 2 (thorough <= 3 over a reduced alphabet) of ~16 state-relative messages (segments, ACKs, refusals, SESS_TERM, unknown types, bad contact headers), then seeded random sequences up to length 12; afterwards the scripted peer acknowledges honestly and the endpoint\'s own transfers must complete.',
